@@ -10,8 +10,11 @@ import (
 	"crypto/sha1"
 	"crypto/x509"
 	"crypto/x509/pkix"
+	"errors"
+	"io"
 	"math/big"
 	"sync"
+	"sync/atomic"
 	"time"
 
 	"github.com/google/martian/v3/mitm"
@@ -26,6 +29,9 @@ import (
 //	p256     hand-made CA, ECDSA P-256
 //	p384     hand-made CA, ECDSA P-384
 //	ed25519  hand-made CA, Ed25519
+//	faulty   hand-made CA, RSA 2048 behind a crypto.Signer (HSM/KMS style) whose Sign fails while the case's
+//	         `signfail on` is in force; every Config gets its own signer so cases do not disturb each other
+//	faultyec the same over ECDSA P-256
 type authority struct {
 	kind string
 	cert *x509.Certificate
@@ -34,7 +40,25 @@ type authority struct {
 	cfgs chan *mitm.Config
 }
 
-var caKinds = []string{"rsa", "rsa3072", "p256", "p384", "ed25519"}
+var caKinds = []string{"rsa", "rsa3072", "p256", "p384", "ed25519", "faulty", "faultyec"}
+
+// faultySigner is a crypto.Signer that is not one of the stdlib key types and can be made to fail.
+type faultySigner struct {
+	inner crypto.Signer
+	fail  atomic.Bool
+	calls atomic.Int64
+}
+
+func (f *faultySigner) Public() crypto.PublicKey { return f.inner.Public() }
+func (f *faultySigner) Sign(rnd io.Reader, digest []byte, opts crypto.SignerOpts) ([]byte, error) {
+	f.calls.Add(1)
+	if f.fail.Load() {
+		return nil, errors.New("verif: signer unavailable")
+	}
+	return f.inner.Sign(rnd, digest, opts)
+}
+
+var signers sync.Map // *mitm.Config -> *faultySigner
 
 var (
 	authMu sync.Mutex
@@ -55,6 +79,10 @@ func newCA(kind string) (*x509.Certificate, crypto.Signer) {
 	switch kind {
 	case "rsa3072":
 		key, err = rsa.GenerateKey(rand.Reader, 3072)
+	case "faulty":
+		key, err = rsa.GenerateKey(rand.Reader, 2048)
+	case "faultyec":
+		key, err = ecdsa.GenerateKey(elliptic.P256(), rand.Reader)
 	case "p256":
 		key, err = ecdsa.GenerateKey(elliptic.P256(), rand.Reader)
 	case "p384":
@@ -116,9 +144,18 @@ func getAuthority(kind string) *authority {
 	for i := 0; i < workers; i++ {
 		go func() {
 			for {
-				c, err := mitm.NewConfig(a.cert, a.key)
+				var key interface{} = a.key
+				var fs *faultySigner
+				if kind == "faulty" || kind == "faultyec" {
+					fs = &faultySigner{inner: a.key}
+					key = fs
+				}
+				c, err := mitm.NewConfig(a.cert, key)
 				if err != nil {
 					panic(err)
+				}
+				if fs != nil {
+					signers.Store(c, fs)
 				}
 				a.cfgs <- c
 			}
